@@ -84,3 +84,60 @@ def capture_calls(w, fname, thunk, self_is=None, max_depth=None):
     finally:
         w.it.trace_calls = old
     return val, seen
+
+
+def kink_symbols(M):
+    """Input symbols x for which fabs(+-x) or sign(+-x) occurs in M (kinks that a sign-case split removes)."""
+    out = []
+    for p in M.flat():
+        for a in all_atoms(p):
+            if a.kind in ("fabs", "sign") and isinstance(a.key[0], Poly):
+                sa = a.key[0].signed_atom()
+                if sa is not None and sa[1].kind == "sym" and sa[1] not in out:
+                    out.append(sa[1])
+    return out
+
+
+def with_signs(M, signs):
+    """Rewrite fabs(c x) -> |c| s x and sign(c x) -> sgn(c) s for the assumed signs s of the symbols x."""
+    def f(a):
+        if a.kind in ("fabs", "sign") and isinstance(a.key[0], Poly) and len(a.key[0].t) == 1:
+            (mono, c), = a.key[0].t.items()
+            if len(mono) == 1 and mono[0][1] == 1 and mono[0][0] in signs:
+                s = signs[mono[0][0]] * (1 if c > 0 else -1)
+                return a.key[0].scale(s) if a.kind == "fabs" else Poly.const(s)
+        return None
+    return MatVal(M.r, M.c, [[deep_subs(p, f) if p.t else p for p in row] for row in M.cells], M.kind)
+
+
+def sign_cases_of(Ms, limit=3):
+    """All sign assignments of the kink symbols occurring in the matrices Ms (at most 2^limit cases)."""
+    syms = []
+    for M in Ms:
+        for a in kink_symbols(M):
+            if a not in syms:
+                syms.append(a)
+    if len(syms) > limit:
+        return None
+    out = []
+    for mask in range(2 ** len(syms)):
+        sg = {a: (1 if mask >> i & 1 else -1) for i, a in enumerate(syms)}
+        out.append((", ".join("%r %s 0" % (a, ">" if v > 0 else "<") for a, v in sg.items()) or "-", sg))
+    return out
+
+
+def decide_by_cases(A, B, quats=()):
+    """decide_mat after splitting on the sign of every symbol that occurs under fabs/sign.
+    -> (verdict, detail): EQUAL only if equal in every case; DIFFERENT as soon as one case differs."""
+    cases = sign_cases_of([A, B])
+    if not cases or len(cases) == 1:
+        return decide_mat(A, B, quats)
+    worst = EQUAL
+    detail = None
+    for label, sg in cases:
+        v, d = decide_mat(with_signs(A, sg), with_signs(B, sg), quats)
+        if v == DIFFERENT:
+            return DIFFERENT, "case %s: %s" % (label, d)
+        if v == UNKNOWN and worst == EQUAL:
+            worst, detail = UNKNOWN, "case %s: %s" % (label, d)
+    return worst, detail
